@@ -31,6 +31,7 @@ def run(repo, run, tier):
     nan_rejection(repo, run, rule_id="C12.8")
     no_swallowing(repo, run)
     handler_cannot_fail(repo, run, m)
+    temporary_settings_restored(repo, run, m)
 
 
 def _hnames(h):
@@ -302,3 +303,51 @@ def handler_cannot_fail(repo, run, m):
                        "class with its own fields) the handler itself raises (IndexError / AttributeError / ValueError) before the status is stored and before the "
                        "failure is wrapped: integrate() then raises that secondary error, the status still describes the previous call and the cause is lost" % (
                            _hnames(h), why, src(x)[:60]))
+
+
+# ------------------------------------------------------------------------------------------------
+def temporary_settings_restored(repo, run, m):
+    """'calling integrate again continues correctly from its end': integrate() works with objects that outlive the call (the integrator, the right-hand-side wrapper, the
+    dense output).  A setting of one of them that integrate() changes for part of its work (`self.integrator.is_adaptive = False` ... `= True`) has to be put back on
+    EVERY exit: user code runs in between, and when it raises, a restore written as a plain statement after the call is skipped -- the resumed run then integrates with
+    the temporary setting (fixed steps, tolerances ignored) although status, trajectory and dense output of the failed call all look consistent."""
+    rid = run.rule("C12.11", "integrate() stores into attributes of its persistent sub-objects (self.integrator.*, self.equ_rhs.*, self.__sol.*) only where a `finally` "
+                             "clause enclosing the following code stores the same attribute back (or not at all)", floor=1)
+    SUBS = ("integrator", "equ_rhs", "__sol", "sol", "__method")
+    fn = m.fn
+    stores = []
+    for st in walk_no_nested(fn):
+        if isinstance(st, (ast.Assign, ast.AugAssign)):
+            for t in (st.targets if isinstance(st, ast.Assign) else [st.target]):
+                if isinstance(t, ast.Attribute) and is_self_attr(t.value) and t.value.attr in SUBS:
+                    stores.append((st, src(t)))
+    if not stores:
+        run.judged(rid, "integrate() changes no setting of the integrator / rhs wrapper / dense output", nontrivial=False)
+        return
+    for st, tgt in stores:
+        in_finally = any(isinstance(a, ast.Try) and any(st is x or any(st is y for y in ast.walk(x)) for x in a.finalbody) for a in ancestors(st))
+        if in_finally:
+            run.judged(rid, "`%s` is the restoring store (in a finally clause)" % src(st)[:70])
+            continue
+        # a try statement that follows the store in the same block (or encloses it) and whose finally stores the same target
+        restored = False
+        blk_owner = st._parent
+        for fld in ("body", "orelse", "finalbody"):
+            blk = getattr(blk_owner, fld, None)
+            if isinstance(blk, list) and any(x is st for x in blk):
+                after = blk[[i for i, x in enumerate(blk) if x is st][0] + 1:]
+                for nxt in after:
+                    if isinstance(nxt, ast.Try) and any(isinstance(y, (ast.Assign, ast.AugAssign)) and any(
+                            src(t2) == tgt for t2 in (y.targets if isinstance(y, ast.Assign) else [y.target])) for x in nxt.finalbody for y in ast.walk(x)):
+                        restored = True
+                    break       # only the statement immediately following may be the protecting try
+        for a in ancestors(st):
+            if isinstance(a, ast.Try) and any(st is y for x in a.body for y in ast.walk(x)) and a is not m.try_ and any(
+                    isinstance(y, (ast.Assign, ast.AugAssign)) and any(src(t2) == tgt for t2 in (y.targets if isinstance(y, ast.Assign) else [y.target]))
+                    for x in a.finalbody for y in ast.walk(x)):
+                restored = True
+        run.judged(rid, "`%s`: %s" % (src(st)[:70], "restored by a finally clause" if restored else "no finally clause restores it"), ok=restored)
+        if not restored:
+            run.report("C12.11", DS, st, "integrate() changes `%s`, a setting of an object that outlives the call, and no `finally` clause puts it back: if the right-hand side, an event "
+                       "function or a callback raises (or the user interrupts) before the plain restoring statement is reached, the object keeps the temporary setting; the "
+                       "failed call looks consistent, but integrate() called again does NOT continue correctly (e.g. an adaptive method keeps taking uncontrolled steps)" % tgt)
